@@ -124,8 +124,11 @@ Definition hb_k (b : hbeh) : N := match b with HRead k | HPanic k _ => k end.
 Definition hb_panics (b : hbeh) : bool := match b with HRead _ => false | HPanic _ _ => true end.
 
 (* the environment of one loop iteration: the ids that handleOutgoing registered in
-   c.awaiting since the previous lookup, and what the handler (if one is called) does *)
-Record env_step := mkEnv { e_register : list N; e_beh : hbeh }.
+   c.awaiting since the previous lookup, and what the handler (if one is called) does.
+   [e_close_sent]: this client has written a CloseConnection before this header is read (only then
+   does a CloseConnectionResponse announce the orderly end of the stream, since the fix ea578f8;
+   before it every CloseConnectionResponse did: that is e_close_sent = true throughout) *)
+Record env_step := mkEnv { e_register : list N; e_beh : hbeh; e_close_sent : bool }.
 
 Inductive reply_delivery :=
 | RBuffered (payload : list byte)   (* Message{hdr, bytes.Buffer} sent on the reply channel *)
@@ -234,7 +237,7 @@ Definition read_iter (st : state) (e : env_step) (bs : list byte) : iter_result 
   | RhShort => ItEnd EndShortHeader []
   | RhBad rest => ItEnd EndBadHeader rest
   | RhOk h rest =>
-      let cs := s_closed_seen st || (h_typ h =? MsgCloseConnectionResponse) in
+      let cs := s_closed_seen st || ((h_typ h =? MsgCloseConnectionResponse) && e_close_sent e) in
       match pass_to_handler (s_aw st) h e rest with
       | (PthOk d rest', aw') => ItNext d (mkState aw' cs) rest'
       | (PthErr d, _) => ItLast d
